@@ -77,6 +77,7 @@ Section C09.
     | 4 => repeat 121 (N.to_nat FN + 1)
     | 5 => [99]
     | 6 => [104; 195; 169; 228; 184; 150]
+    | 7 => concat (repeat [195; 169] (N.to_nat (FN / 2 + 1)))   (* <= FN characters, > FN bytes *)
     | n => ascii_name n
     end.
   Definition src_of (l salt : N) : bytes :=
